@@ -775,6 +775,13 @@ def run(ctx):
         R.extra["sessions"] = len(h.sessions)
     finally:
         shutil.rmtree(h.tmp, ignore_errors=True)
+    # ---- (c') unit operations inside an on-write hook are part of the save that runs the hook -------------------------
+    h.tmp = tempfile.mkdtemp(prefix="c10h_")
+    try:
+        for v in hook_cases(h, ctx.budget(6, 40), rng):
+            R.violation(v["signature"], v["what"], v["replay"])
+    finally:
+        shutil.rmtree(h.tmp, ignore_errors=True)
     # ---- (d) the same oracles on scenarios of the older versions (one process per version) --------------------------
     from harness import bases, vworker, codec_common as cc
     vs = [v for v in bases.versions() if v != bases.versions()[-1]]
@@ -784,6 +791,41 @@ def run(ctx):
     cc.merge_results(R, per, "C10")
     R.extra["older_versions"] = pick
     return R.to_json(exhaustive=True)
+
+
+def hook_cases(h, n, rng):
+    """fresh scenario, a few operations, an `on_write` hook that adds / clones / removes units, ONE real save, re-load: the file
+    holds the lists as they are after the hook ran, and its counter is larger than the ids the hook was given"""
+    out = {}
+    for i in range(n):
+        sc, k0 = fresh_scenario()
+        s = Session(h, sc, keep=False, counter=k0, record=False, label=f"hook{i}", kindinfo={"kind": "seq", "fresh": True, "hook": True})
+        for _ in range(rng.choice([0, 2, 5])):
+            op = rnd_op(rng, s)
+            if op[0] == "add":
+                op[1]["reference_id"] = None
+            s.do(op)
+        kinds = [rng.choice(["add", "clone", "remove"]) for _ in range(rng.choice([1, 2, 3]))]
+
+        def hook(scn, kinds=kinds, s=s):
+            for kd in kinds:          # through the session, so that its books (which objects are stored where) follow
+                for _ in range(20):
+                    op = rnd_op(rng, s)
+                    if op[0] in (("add",) if kd == "add" else ("clone",) if kd == "clone" else ("remove_obj", "remove_id")):
+                        break
+                else:
+                    op = rnd_add(rng, s)
+                if op[0] == "add":
+                    op[1]["reference_id"] = None
+                s.do(op)
+        sc.on_write(hook)
+        s.ops.append(["hook"] + kinds)
+        s.do(["savefile"])
+        for v in s.violations:
+            v["signature"] = dict(v["signature"], inside="on_write hook")
+            out.setdefault(json.dumps(v["signature"], sort_keys=True), v)
+        h.R.case(key=f"hook{i}:{kinds}", nontrivial=True, tags=("file:on-write-hook",))
+    return list(out.values())
 
 
 class _Ctx:
